@@ -61,6 +61,17 @@ CHECKS = {
             "must be refused with the document unchanged.",
             TRUST + "Matched positions are decided by the C01 reference "
             "evaluator.", "6/C04"),
+    "C09": (True, "exploration",
+            "exhaustive small-scope enumeration with a before/after snapshot "
+            "invariant (purity) and a pattern oracle with wildcards for "
+            "padding (creation)",
+            "~1.3e6 read-only calls (exists / required / optional-on-live "
+            "paths, incl. ~350 collector expressions with +, -, & and "
+            "nesting) must leave a typed snapshot of the document (data, key "
+            "order, anchors, alias cells) unchanged; ~4e4 creations of "
+            "missing key/index tails of length 1-3 below every container or "
+            "null of every document <= 3 nodes must add exactly the tail.",
+            TRUST, "6/C09"),
     "C12": (True, "exploration",
             "complete finite grid + Hypothesis generation against a "
             "reference comparison table; metamorphic inversion-complement "
